@@ -122,6 +122,9 @@ class Gen(object):
             obj.update(alg="AES", len=128 if obj["val"] == "k16" else 256, fmt="RAW")
             if obj["val"] == "pw":
                 obj["val"] = "k16"
+        elif t in ("PublicKey", "PrivateKey", "SplitKey") and self.r.random() < 0.3:
+            # a key of another kind whose material would do as an AES key: kind checks must refuse it
+            obj.update(alg="AES", len=128, fmt="RAW", val="k16")
         elif t in ("PublicKey", "PrivateKey"):
             obj.update(alg="RSA", len=1024, fmt="PKCS_1" if t == "PublicKey" else "PKCS_8",
                        val="rsapub" if t == "PublicKey" else "rsapriv")
